@@ -10,7 +10,7 @@
 //! the engine's: numeric, IEEE total order for floats (no NaN), byte-wise for strings), then weakened
 //! soundly: an entry becomes unknown (NULL entry, or a `None` array for the whole column), min is lowered /
 //! max is raised to another pool value, counts become unknown, `contained()` answers are computed from
-//! the rows (TRUE = every non-null value is in the set, FALSE = none is) or left unknown. For a column
+//! the rows (TRUE = no NULL row and every value is in the set, FALSE = no non-null value is) or left unknown. For a column
 //! that has no non-null value in a container every min/max is (vacuously) valid, so arbitrary pool
 //! values are supplied there as well — `wrap_null_count_check_expr` documents that real sources do that.
 //!
@@ -48,14 +48,16 @@ use arrow::record_batch::{RecordBatch, RecordBatchOptions};
 use datafusion_common::pruning::{PrunableStatistics, PruningStatistics};
 use datafusion_common::stats::Precision;
 use datafusion_common::{Column, ColumnStatistics, DFSchema, ScalarValue, Statistics};
-use datafusion_datasource::PartitionedFile;
+// datafusion-datasource / -physical-plan are only reachable through the generated feature-unification
+// aliases of this crate's Cargo.toml (cargo forbids declaring the same package under two names)
+use u_datafusion_datasource_55_0_0::PartitionedFile;
 use datafusion_expr::execution_props::ExecutionProps;
 use datafusion_expr::expr::{Cast, InList, Like, TryCast};
 use datafusion_expr::physical_planning_context::PhysicalPlanningContext;
 use datafusion_expr::{Expr, Operator, binary_expr};
 use datafusion_physical_expr::utils::{Guarantee, LiteralGuarantee};
 use datafusion_physical_expr::{PhysicalExpr, PhysicalExprSimplifier, create_physical_expr};
-use datafusion_physical_plan::metrics::Count;
+use u_datafusion_physical_plan_55_0_0::metrics::Count;
 use datafusion_pruning::{FilePruner, PruningPredicateBuilder};
 use proptest::prelude::*;
 use serde::{Deserialize, Serialize};
@@ -180,7 +182,7 @@ fn pool(ty: Ty) -> Vec<Raw> {
                 .collect()
         }
         Ty::U8 => [0i128, 1, 2, 3, 5, 10, 100, 127, 128, 200, 254, 255].iter().map(|x| Raw::I(*x)).collect(),
-        Ty::F32 => [f32::MIN as f64, -2.5, -1.0, -0.0, 0.0, 1.0, 1.5, 2.0, 16777216.0, f32::MAX as f64].iter().map(|x| Raw::F(*x)).collect(),
+        Ty::F32 => [f32::MIN as f64, -2.5, -1.0, 0.0, 1.0, 1.5, 2.0, 16777216.0, f32::MAX as f64].iter().map(|x| Raw::F(*x)).collect(),
         Ty::F64 => [
             f64::NEG_INFINITY,
             f64::MIN,
@@ -188,7 +190,6 @@ fn pool(ty: Ty) -> Vec<Raw> {
             -2.5,
             -1.0,
             -0.5,
-            -0.0,
             0.0,
             0.5,
             1.0,
@@ -783,6 +784,11 @@ fn like_match(s: &str, pat: &str) -> Result<bool, ()> {
     Ok(reach[s.len()])
 }
 
+/// a floating zero of either sign: the reference evaluator does not decide comparisons among them
+fn pm_zero(r: &Raw) -> bool {
+    matches!(r, Raw::F(x) if *x == 0.0)
+}
+
 fn ref_pred(p: &RP, row: &Row) -> Result<Option<bool>, ()> {
     use std::cmp::Ordering::*;
     match p {
@@ -796,12 +802,20 @@ fn ref_pred(p: &RP, row: &Row) -> Result<Option<bool>, ()> {
                     let distinct = match (&x, &y) {
                         (None, None) => false,
                         (None, _) | (_, None) => true,
-                        (Some(x), Some(y)) => !raw_eq(x, y),
+                        (Some(x), Some(y)) => {
+                            if pm_zero(x) && pm_zero(y) {
+                                return Err(());
+                            }
+                            !raw_eq(x, y)
+                        }
                     };
                     Ok(Some(if *op == Operator::IsDistinctFrom { distinct } else { !distinct }))
                 }
                 _ => {
                     let (Some(x), Some(y)) = (x, y) else { return Ok(None) };
+                    if pm_zero(&x) && pm_zero(&y) {
+                        return Err(());
+                    }
                     let o = cmp_raw(&x, &y);
                     Ok(Some(match op {
                         Operator::Eq => o == Equal,
@@ -817,7 +831,14 @@ fn ref_pred(p: &RP, row: &Row) -> Result<Option<bool>, ()> {
         }
         RP::In(t, list, neg) => {
             let v = ref_term(t, row)?;
+            if list.is_empty() {
+                // the engine's InListExpr answers `x IN ()` = false even for a NULL x
+                return Ok(Some(*neg));
+            }
             let Some(v) = v else { return Ok(None) };
+            if pm_zero(&v) {
+                return Err(());
+            }
             let mut found = false;
             let mut has_null = false;
             for (_, l) in list {
@@ -888,6 +909,7 @@ struct ColStats {
     contained_known: Vec<bool>,
     /// answer used when a container has no non-null value: Some(true) / Some(false) / None by the case
     vacuous_contained: Vec<Option<bool>>,
+    has_null_row: Vec<bool>,
     inexact: Vec<bool>,
 }
 
@@ -953,11 +975,15 @@ impl PruningStatistics for Stats {
                 continue;
             }
             let vals = &cs.values[k];
-            if vals.is_empty() {
+            if vals.is_empty() && !cs.has_null_row[k] {
+                // a container without rows: every answer is vacuously correct
                 out.push(cs.vacuous_contained[k]);
                 continue;
             }
-            let all_in = vals.iter().all(|v| values.contains(v));
+            // TRUE ("the column ONLY contains values from the set") is only claimed when no row is NULL:
+            // whether a NULL row counts as "a value outside the set" is not specified, and `c NOT IN ()`
+            // is TRUE on NULL rows in the engine, so the conservative reading is the only safe one.
+            let all_in = !cs.has_null_row[k] && vals.iter().all(|v| values.contains(v));
             let none_in = vals.iter().all(|v| !values.contains(v));
             out.push(if all_in {
                 Some(true)
@@ -1081,7 +1107,7 @@ impl Property for C22 {
             "row-level truth of the predicate = DataFusion's own PhysicalExpr::evaluate on the container's rows (cross-checked by a partial reference evaluator; disagreement => inconclusive)".into(),
             "statistics are computed by harness code in the engine's ordering (numeric; IEEE total order for NaN-free floats; byte-wise strings) and only weakened soundly".into(),
             "for a column without non-null values in a container every min/max is vacuously valid (arbitrary pool values are supplied)".into(),
-            "contained() ignores NULL rows: TRUE = all non-null values in the set, FALSE = none of them; empty value set => either answer or unknown".into(),
+            "contained(): TRUE = no NULL row and every value in the set, FALSE = no non-null value in the set; a container without rows => either answer or unknown".into(),
             "a prune()/try_build() error is a clean rejection (callers then keep the container), not a violation".into(),
         ]
     }
@@ -1093,7 +1119,59 @@ impl Property for C22 {
     }
 }
 
-fn known_sig(_case: &Case) -> Option<String> {
+/// Signatures of known findings (see /verif/known_findings.json):
+/// * `cast-numeric-to-bool`: `CAST(numeric_col AS BOOLEAN) op lit` is rewritten to min/max although the cast
+///   is not monotone (-1 -> true, 0 -> false, 1 -> true).
+/// * `cast-decimal-to-int`: `CAST(decimal_col AS INT) op lit` is "unwrapped" by the simplifier that try_build
+///   runs on the rewritten predicate into `decimal_col op lit.00` although the cast truncates (-1.50 -> -1).
+/// * `neg-of-int-min`: the predicate negates an integer column (`-c`) and some row holds that type's MIN
+///   (NegativeExpr wraps at row level, the pruning rewrite `-c op lit -> c op' -lit` assumes it does not).
+fn known_sig(case: &Case) -> Option<String> {
+    fn terms<'a>(p: &'a P, out: &mut Vec<&'a T>) {
+        match p {
+            P::Cmp { t, .. } | P::IsNull { t, .. } => out.push(t),
+            P::Not(a) => terms(a, out),
+            P::And(a, b) | P::Or(a, b) => {
+                terms(a, out);
+                terms(b, out);
+            }
+            _ => {}
+        }
+    }
+    if case.cols.is_empty() || case.cols.len() > 3 {
+        return None;
+    }
+    let mut ts = vec![];
+    terms(&case.pred, &mut ts);
+    for t in &ts {
+        if let T::Cast { c, to, .. } = t {
+            let mut rs = Resolver { cols: &case.cols, labels: vec![], used_cols: vec![] };
+            let (_, ty) = rs.col(*c);
+            let targets = ty.cast_targets();
+            if !targets.is_empty() && targets[pick_index(*to, targets.len())] == Ty::Bool && ty != Ty::Bool {
+                return Some("cast-numeric-to-bool".into());
+            }
+            if !targets.is_empty() && ty == Ty::Dec92 && targets[pick_index(*to, targets.len())].is_int() {
+                return Some("cast-decimal-to-int".into());
+            }
+        }
+    }
+    for t in ts {
+        if let T::Neg(c) = t {
+            let mut rs = Resolver { cols: &case.cols, labels: vec![], used_cols: vec![] };
+            if let Some((ci, ty)) = rs.col_where(*c, |t| t.supports_neg()) {
+                if let Some((lo, _)) = ty.int_range() {
+                    for cont in &case.containers {
+                        for r in &cont.rows {
+                            if !r[ci].null && pool_val(ty, r[ci].v) == Raw::I(lo) {
+                                return Some("neg-of-int-min".into());
+                            }
+                        }
+                    }
+                }
+            }
+        }
+    }
     None
 }
 
@@ -1176,7 +1254,7 @@ fn run_case(case: &Case) -> CaseResult {
     let mut any_weakened = false;
     for ci in 0..ncols {
         let ty = tys[ci];
-        let mut cs = ColStats { min: vec![], max: vec![], nulls: vec![], values: vec![], contained_known: vec![], vacuous_contained: vec![], inexact: vec![] };
+        let mut cs = ColStats { min: vec![], max: vec![], nulls: vec![], values: vec![], contained_known: vec![], vacuous_contained: vec![], has_null_row: vec![], inexact: vec![] };
         for k in 0..n {
             let w = &case.containers[k].weak[ci];
             let vals: Vec<Raw> = rows[k].iter().filter_map(|r| r[ci].clone()).collect();
@@ -1218,6 +1296,7 @@ fn run_case(case: &Case) -> CaseResult {
                 1 => Some(true),
                 _ => Some(false),
             });
+            cs.has_null_row.push(nulls > 0);
             cs.inexact.push(w.inexact);
         }
         cols_stats.push(cs);
@@ -1256,7 +1335,7 @@ fn run_case(case: &Case) -> CaseResult {
                 if (r == Some(true)) != t {
                     return CaseResult::inconclusive(format!("reference evaluator disagrees with the engine on a row: ref={r:?} engine_true={t}"))
                         .labels(labels)
-                        .label(format!("REF-DISAGREE {} row={:?}", pred_expr(&rp), row));
+                        .label(format!("REF-DISAGREE ref={r:?} engine_true={t} {} row={:?}", pred_expr(&rp), row));
                 }
             }
         }
